@@ -47,6 +47,8 @@ def register(R):
                is_done=ExtSpec(returns=Bool, raises=()),
                poll_for_result=ExtSpec(returns=Any, raises=('Exception', 'KeyboardInterrupt'), blocking=True),
                _connect=ExtSpec(raises=()))
+    # what a queue hands out is a job / request tuple OR the shutdown sentinel (a string): `item == SHUTDOWN_SIGNAL` is undetermined
+    R.maybe_str_kinds = set(getattr(R, 'maybe_str_kinds', ())) | {'queue_item'}
     R.external('mpqueue', put=ExtSpec(raises=('Exception',), blocking=True), get=ExtSpec(returns=ExtT('queue_item'), raises=(), blocking=True))
     R.external('process', join=ExtSpec(raises=(), blocking=True), start=ExtSpec(raises=()))
     R.external('mpmanager', shutdown=ExtSpec(raises=()))
